@@ -59,6 +59,8 @@ type caseIn struct {
 	Thresh   int      `json:"thresh"`
 	Rev0     [][2]int `json:"rev0"`
 	Steps    []stepIn `json:"steps"`
+	Siblings []string `json:"siblings,omitempty"` // other upstreams on the same connection ("unreliable", "partial"): environment, not under test;
+	// after a redial the broker answers THEIR resume requests first (their new run clears their stored chunks)
 	AckTimeoutMs int  `json:"acktimeoutms,omitempty"` // WithUpstreamAckTimeout (0 = the default: none)
 	SliceMode int     `json:"slicemode,omitempty"` // 1 reuse one slice, 2 windows of one array, 3 fresh slices; 0 = derived
 }
@@ -136,23 +138,33 @@ type logStorage struct {
 	stored  chan uint32
 	mu      sync.Mutex
 	removed []uint32
-	all     []uint32 // every sequence number ever stored
+	all     []uint32 // every sequence number ever stored (of the stream under test)
+	main    uuid.UUID
+	clears  atomic.Int32
 	lists   atomic.Int32 // List/Clear calls made by the library (run(isResume))
 }
 
 func (s *logStorage) List(ctx context.Context, id uuid.UUID) (map[uint32]iscp.DataPointGroups, error) {
 	m, err := s.VerifSentStorage.List(ctx, id)
-	s.lists.Add(1)
+	if id == s.main {
+		s.lists.Add(1)
+	}
 	return m, err
 }
 func (s *logStorage) Clear(ctx context.Context, id uuid.UUID) error {
 	err := s.VerifSentStorage.Clear(ctx, id)
-	s.lists.Add(1)
+	s.clears.Add(1)
+	if id == s.main {
+		s.lists.Add(1)
+	}
 	return err
 }
 
 func (s *logStorage) Store(ctx context.Context, id uuid.UUID, seq uint32, d iscp.DataPointGroups) error {
 	err := s.VerifSentStorage.Store(ctx, id, seq, d)
+	if id != s.main {
+		return err // a sibling stream: environment
+	}
 	s.mu.Lock()
 	s.all = append(s.all, seq)
 	s.mu.Unlock()
@@ -164,7 +176,7 @@ func (s *logStorage) Store(ctx context.Context, id uuid.UUID, seq uint32, d iscp
 }
 func (s *logStorage) Remove(ctx context.Context, id uuid.UUID, seq uint32) (iscp.DataPointGroups, error) {
 	g, err := s.VerifSentStorage.Remove(ctx, id, seq)
-	if err == nil {
+	if err == nil && id == s.main {
 		s.mu.Lock()
 		s.removed = append(s.removed, seq)
 		s.mu.Unlock()
@@ -242,6 +254,9 @@ type env struct {
 	resendN   int
 	cutAt     int
 	holdResendAck bool
+	nopen     int
+	sibIDs    []uuid.UUID
+	sibResume chan resumeReq
 	resendLog []uint32
 	resumeCh  chan resumeReq
 	resumeIDs []uuid.UUID
@@ -358,7 +373,10 @@ type pendingWrite struct {
 func runCase(c *caseIn, r *rng.R) (res result) {
 	e := &env{idOf: map[message.DataID]int{}, dataID: map[int]*message.DataID{}, aliasTbl: map[uint32]int{},
 		streamID: uuid.New(), incOf: map[*broker.Session]int{}, brokerAck: map[uint32]bool{}, resend: map[uint32]bool{},
-		resumeCh: make(chan resumeReq, 16), alias: 1}
+		resumeCh: make(chan resumeReq, 16), sibResume: make(chan resumeReq, 16), alias: 1}
+	for range c.Siblings {
+		e.sibIDs = append(e.sibIDs, uuid.New())
+	}
 	rev0 := map[uint32]*message.DataID{}
 	for _, ia := range c.Rev0 {
 		rev0[uint32(ia[1])] = e.did(ia[0])
@@ -373,9 +391,21 @@ func runCase(c *caseIn, r *rng.R) (res result) {
 			e.mu.Unlock()
 			broker.AcceptConnect(s, v)
 		case *message.UpstreamOpenRequest:
+			e.mu.Lock()
+			k := e.nopen
+			e.nopen++
+			e.mu.Unlock()
+			if k > 0 { // a sibling upstream: its own stream id, aliases from 50
+				s.Send(&message.UpstreamOpenResponse{RequestID: v.RequestID, AssignedStreamID: e.sibIDs[k-1], AssignedStreamIDAlias: uint32(50 + k),
+					ResultCode: message.ResultCodeSucceeded, ServerTime: time.Unix(1700000000, 0)})
+				return
+			}
 			s.Send(&message.UpstreamOpenResponse{RequestID: v.RequestID, AssignedStreamID: e.streamID, AssignedStreamIDAlias: 1,
 				ResultCode: message.ResultCodeSucceeded, ServerTime: time.Unix(1700000000, 0), DataIDAliases: rev0})
 		case *message.UpstreamChunk:
+			if v.StreamIDAlias >= 50 {
+				return // a sibling's chunk: neither recorded nor acknowledged
+			}
 			e.mu.Lock()
 			gs, stripped := e.decode(v.StreamChunk.DataPointGroups)
 			seq := v.StreamChunk.SequenceNumber
@@ -404,11 +434,23 @@ func runCase(c *caseIn, r *rng.R) (res result) {
 				s.Send(&message.UpstreamChunkAck{StreamIDAlias: alias, Results: []*message.UpstreamChunkResult{{SequenceNumber: seq, ResultCode: message.ResultCodeSucceeded}}})
 			}
 		case *message.UpstreamResumeRequest:
+			for _, id := range e.sibIDs {
+				if v.StreamID == id {
+					e.sibResume <- resumeReq{s, v}
+					return
+				}
+			}
 			e.mu.Lock()
 			e.resumeIDs = append(e.resumeIDs, v.StreamID)
 			e.mu.Unlock()
 			e.resumeCh <- resumeReq{s, v}
 		case *message.UpstreamCloseRequest:
+			for _, id := range e.sibIDs {
+				if v.StreamID == id {
+					s.Send(&message.UpstreamCloseResponse{RequestID: v.RequestID, ResultCode: message.ResultCodeSucceeded})
+					return
+				}
+			}
 			e.mu.Lock()
 			e.closeReq = append(e.closeReq, [2]uint64{v.TotalDataPoints, uint64(v.FinalSequenceNumber)})
 			e.mu.Unlock()
@@ -435,7 +477,7 @@ func runCase(c *caseIn, r *rng.R) (res result) {
 	} else {
 		inner = iscp.VerifNewInmemSentStorageNoPayload() // the no-payload class (the default before /repo f1380ca); not generated any more
 	}
-	st := &logStorage{VerifSentStorage: inner, stored: make(chan uint32, 4096)}
+	st := &logStorage{VerifSentStorage: inner, stored: make(chan uint32, 4096), main: e.streamID}
 	plog := &pauseLogger{}
 	var conn *iscp.Conn
 	err, blocked := call(func() error {
@@ -475,6 +517,33 @@ func runCase(c *caseIn, r *rng.R) (res result) {
 		res.direct = fmt.Sprintf("harness: open failed: %v blocked=%v", err, blocked)
 		return
 	}
+	// sibling upstreams on the same connection and the same sent storage: each keeps one unacknowledged chunk
+	for k, sq := range c.Siblings {
+		q := message.QoSUnreliable
+		if sq == "partial" {
+			q = message.QoSPartial
+		}
+		err, blocked := call(func() error {
+			ctx, cancel := context.WithTimeout(context.Background(), wd)
+			defer cancel()
+			su, err := conn.OpenUpstream(ctx, fmt.Sprintf("sib%d", k), iscp.WithUpstreamFlushPolicyNone(), iscp.WithUpstreamQoS(q))
+			if err != nil {
+				return err
+			}
+			if err := su.WriteDataPoints(ctx, &message.DataID{Name: "sib", Type: "t"}, &message.DataPoint{ElapsedTime: 1, Payload: []byte{1, 2}}); err != nil {
+				return err
+			}
+			return su.Flush(ctx)
+		})
+		if blocked || err != nil {
+			res.direct = fmt.Sprintf("harness: sibling open failed: %v blocked=%v", err, blocked)
+			return
+		}
+	}
+	sibN := 0
+	sibSeq := func() int { sibN++; return sibN }
+	sibAnswered := -1 // incarnation in which the siblings' resume requests have been answered
+	var closeDone chan error
 
 	var evT, retT []string
 	emit := func(ev string, ret int) {
@@ -807,6 +876,39 @@ func runCase(c *caseIn, r *rng.R) (res result) {
 			}
 			emit("EApi (Alias "+pairsTerm(op.Aliases)+")", 0)
 			emit("EApi (Results "+resultsTerm(seqs)+")", 0)
+		case "closebegin":
+			// the application calls Close while chunks are unacknowledged: Close drains and waits for the acks
+			if !linkUp || streamClosed || closeDone != nil {
+				continue
+			}
+			drainStored()
+			closeDone = make(chan error, 1)
+			go func(ch chan error) {
+				ctx, cancel := context.WithTimeout(context.Background(), wd)
+				defer cancel()
+				ch <- up.Close(ctx)
+			}(closeDone)
+			emit("EApi Close", 0)
+			time.Sleep(20 * time.Millisecond)
+			drainStored()
+			select {
+			case err := <-closeDone:
+				return bad(fmt.Sprintf("Close returned (%v) although chunks %v are unacknowledged and the close timeout has not expired", err, listStored()))
+			default:
+			}
+		case "closewait":
+			if closeDone == nil {
+				continue
+			}
+			var cerr error
+			select {
+			case cerr = <-closeDone:
+			case <-time.After(2 * wd):
+				return bad("a Close that was waiting for acks when the transport died did not return within the watchdog after the stream had resumed and every chunk was acknowledged")
+			}
+			closeDone = nil
+			streamClosed = true
+			emit("ECloseEnd", retOf(cerr))
 		case "acktimeout":
 			// a configured (small) ack timeout on a LIVE connection: the broker withholds the acks of the outstanding
 			// chunks; the library removes each of them from the storage by design
@@ -932,7 +1034,24 @@ func runCase(c *caseIn, r *rng.R) (res result) {
 			case rq = <-e.resumeCh:
 			case <-time.After(wd):
 				res.sig = "F9:stream-missed-the-outage"
-				return bad("no UpstreamResumeRequest within the watchdog after the redial: the stream did not notice the outage (F9) or is stuck")
+				return bad("no UpstreamResumeRequest within the watchdog after the redial: the stream did not notice the outage or was not allowed to resume (e.g. while a Close is draining), or is stuck")
+			}
+			storedAtResume := listStored()
+			if len(c.Siblings) > 0 && sibAnswered != inc {
+				// the broker answers the siblings first: a non-reliable stream's new run clears ITS stored chunks
+				c0 := st.clears.Load()
+				for range c.Siblings {
+					select {
+					case sr := <-e.sibResume:
+						sr.s.Send(&message.UpstreamResumeResponse{RequestID: sr.msg.RequestID, AssignedStreamIDAlias: uint32(60 + sibSeq()), ResultCode: message.ResultCodeSucceeded})
+					case <-time.After(wd):
+						return bad("harness: a sibling upstream sent no resume request")
+					}
+				}
+				if !broker.WaitFor(wd, func() bool { return int(st.clears.Load()-c0) >= len(c.Siblings) }) {
+					return bad("harness: the siblings' resumed runs did not clear their stored chunks")
+				}
+				sibAnswered = inc
 			}
 			switch op.Outcome {
 			case "conflict":
@@ -980,7 +1099,7 @@ func runCase(c *caseIn, r *rng.R) (res result) {
 				e.resend = map[uint32]bool{}
 				e.resendN, e.cutAt, e.resendLog = 0, op.CutAt, nil
 				e.holdResendAck = op.HoldMs > 0
-				stored := listStored()
+				stored := storedAtResume // what was stored when the stream asked to resume (before any sibling was answered)
 				if c.Reliable {
 					for _, q := range stored {
 						e.resend[uint32(q)] = true
@@ -1599,6 +1718,26 @@ func main() {
 				add(c, "close-during-resend")
 			}
 		}
+		// --- the transport dies while Close is waiting for acks: the stream must resume, retransmit and let Close finish
+		for i := 0; i < 4; i++ {
+			c := &caseIn{Keep: true, Reliable: true, Policy: "none", SliceMode: 1 + i%3}
+			c.Steps = append(pairs(1+i/2), stepIn{Op: "closebegin"}, stepIn{Op: "cut", Silent: i%2 == 1}, stepIn{Op: "detect"}, stepIn{Op: "redial"},
+				stepIn{Op: "resume", Outcome: "ok"}, stepIn{Op: "closewait"})
+			add(c, "cut-while-close-waits")
+		}
+		// --- sibling upstreams (unreliable / partial) on the same connection resume FIRST: the reliable stream under
+		// test must still retransmit everything it had stored
+		for i, sib := range [][]string{{"unreliable"}, {"partial"}, {"unreliable", "partial"}} {
+			c := &caseIn{Keep: true, Reliable: true, Policy: "none", SliceMode: 1 + i%3, Siblings: sib}
+			c.Steps = append(pairs(2), stepIn{Op: "cut"})
+			if i > 0 {
+				c.Steps = append(c.Steps, wf(2, 3)...)
+			}
+			c.Steps = append(c.Steps, stepIn{Op: "detect"}, stepIn{Op: "redial"}, stepIn{Op: "resume", Outcome: "ok"})
+			c.Steps = append(c.Steps, wf(1, 2)...)
+			c.Steps = append(c.Steps, stepIn{Op: "close"})
+			add(c, "non-reliable-siblings-resume-first")
+		}
 		// --- slow: the ack of a retransmitted chunk is withheld for longer than any default the library might
 		// apply (1.3 s; no ack timeout configured), then a second failure: the chunk must be retransmitted again
 		nslow := 1
@@ -1699,7 +1838,7 @@ func main() {
 		}
 		w.Add(cs)
 	}
-	rule := "Close during the resend phase (n=2..3 unacknowledged chunks, Close issued between the k-th and the next resent chunk, pinned by a pausing logger); one slow case (ack of a retransmitted chunk withheld 1.3 s, second failure, must be retransmitted again); a configured 150 ms ack timeout on a live connection (removal by design = EAckTimeout); exhaustive: every cut position (before/after each of n write+flush pairs) x every subset of the chunks in flight acknowledged before the cut (out of order included) x loud/silent death x producer slice discipline (one reused slice / windows of one array / fresh), resume ok, one more write, close; random: 2-5 pairs, cut anywhere, writes between the cut and its detection (chunk lost / final flush at cancellation), writes issued while resuming, resume outcomes ok / conflict(s)-then-ok / refused / exchange cut, a second outage (during the resend phase after the k-th resent chunk, or later), policies none/size/immediate, payload-keeping and default storage, 10% unreliable. non-trivial = an outage with >=1 stored unacknowledged chunk and a write accepted after it, or >=1 retransmitted chunk; distinct = distinct Coq case terms"
+	rule := "the transport dies (loud/silent) while Close waits for acks: resume, retransmission, Close completes; unreliable/partial sibling upstreams on the same connection and storage whose resume is answered first; Close during the resend phase (n=2..3 unacknowledged chunks, Close issued between the k-th and the next resent chunk, pinned by a pausing logger); one slow case (ack of a retransmitted chunk withheld 1.3 s, second failure, must be retransmitted again); a configured 150 ms ack timeout on a live connection (removal by design = EAckTimeout); exhaustive: every cut position (before/after each of n write+flush pairs) x every subset of the chunks in flight acknowledged before the cut (out of order included) x loud/silent death x producer slice discipline (one reused slice / windows of one array / fresh), resume ok, one more write, close; random: 2-5 pairs, cut anywhere, writes between the cut and its detection (chunk lost / final flush at cancellation), writes issued while resuming, resume outcomes ok / conflict(s)-then-ok / refused / exchange cut, a second outage (during the resend phase after the k-th resent chunk, or later), policies none/size/immediate, payload-keeping and default storage, 10% unreliable. non-trivial = an outage with >=1 stored unacknowledged chunk and a write accepted after it, or >=1 retransmitted chunk; distinct = distinct Coq case terms"
 	if err := w.Flush(*seed, *tier, rule, false, map[string]interface{}{"timing_discards": discards}); err != nil {
 		fmt.Fprintln(os.Stderr, err)
 		os.Exit(2)
